@@ -8,6 +8,8 @@ package main
 //   saveconc     (C10): concurrent saves through one store instance never mix up or corrupt sessions
 
 import (
+	"strconv"
+	"net"
 	"crypto/aes"
 	"crypto/cipher"
 	"fmt"
@@ -200,7 +202,129 @@ func init() {
 			}
 			e.close()
 		}
-		c.close([]string{"c09:probe-before-any-callback", "c09:probe-after-callback-1", "c09:max-age", "c09:not-refreshable", "c09:max-age-split", "c09:expired-during-lock-wait"})
+		// The issue time stamped into the credential is the PROXY's clock at the login — not a time the identity provider
+		// supplies (a provider whose clock runs four minutes ahead: iat / auth_time in the future, still inside every tolerance)
+		stampOf := func(cookieValue string) (time.Time, bool) {
+			parts := strings.Split(cookieValue, "|")
+			if len(parts) != 3 {
+				return time.Time{}, false
+			}
+			n, err := strconv.ParseInt(parts[1], 10, 64)
+			return time.Unix(n, 0), err == nil
+		}
+		for _, redis := range []bool{false, true} {
+			e, err := newEnv(c, proxyCfg{Redis: redis, CookieExpire: time.Hour, InjectRequest: defaultInject()})
+			if err != nil {
+				c.violation("HARNESS", "env: "+err.Error(), nil)
+				continue
+			}
+			for _, ahead := range []time.Duration{0, 4 * time.Minute, -4 * time.Minute} {
+				e.idp.mu.Lock()
+				e.idp.claimOverride = map[string]interface{}{"iat": time.Now().Add(ahead).Unix(), "auth_time": time.Now().Add(ahead).Unix()}
+				e.idp.mu.Unlock()
+				b := newBrowser()
+				t0 := time.Now()
+				lr := e.login(b, u, "/x")
+				e.idp.mu.Lock()
+				e.idp.claimOverride = nil
+				e.idp.mu.Unlock()
+				if !lr.OK {
+					c.violation("HARNESS", "login failed (provider clock offset)", ahead.String())
+					continue
+				}
+				for n, v := range b.jar {
+					if !isSessionCookieNameH(e.opts.Cookie.Name, n) {
+						continue
+					}
+					ts, ok := stampOf(v)
+					c.casen(fmt.Sprintf("c09e|stamp|%v|%v", redis, ahead), "")
+					c.count("c09:issue-stamp")
+					if !ok || ts.Before(t0.Add(-3*time.Second)) || ts.After(time.Now().Add(3*time.Second)) {
+						c.violation("C09", fmt.Sprintf("the credential of a login is stamped %v away from the moment it was issued (identity provider's clock offset %v): it is accepted until cookie-expire after THAT time, not after its issue", ts.Sub(t0).Round(time.Second), ahead),
+							map[string]interface{}{"redis": redis, "provider_clock_offset": ahead.String(), "stamp": ts.UTC().String(), "issued": t0.UTC().String()})
+					}
+				}
+				if redis {
+					e.mr.FlushAll()
+				}
+			}
+			e.close()
+		}
+		// The same credential presented AGAIN after its lifetime ran out (it was accepted — and possibly remembered — while
+		// valid): the window is checked on every presentation, and a refresh that did not happen (token endpoint unreachable
+		// at transport level) re-stamps nothing
+		for _, redis := range []bool{false, true} {
+			e, err := newEnv(c, proxyCfg{Redis: redis, CookieExpire: time.Hour, CookieRefresh: 50 * time.Minute, InjectRequest: defaultInject()})
+			if err != nil {
+				c.violation("HARNESS", "env: "+err.Error(), nil)
+				continue
+			}
+			ck := e.issueSessionCookie(e.sessionFor(u, time.Hour-3*time.Second))
+			first := e.do(reqSpec{Target: "/app/x", Cookie: ck})
+			if len(first.Hits) == 0 {
+				c.count("c09:again-first-not-served") // a slow machine: the credential ran out before its first use
+			}
+			time.Sleep(4 * time.Second)
+			again := e.do(reqSpec{Target: "/app/x", Cookie: ck})
+			c.casen(fmt.Sprintf("c09e|again|%v", redis), fmt.Sprint(again.Status))
+			c.count("c09:presented-again-after-expiry")
+			if len(again.Hits) > 0 {
+				c.violation("C09", "a credential that was accepted while valid is still accepted when presented again after cookie-expire has elapsed",
+					map[string]interface{}{"redis": redis, "cookie_expire": "1h", "age_at_second_presentation": "1h0m1s", "served_first": len(first.Hits) > 0})
+			}
+			if redis {
+				e.mr.FlushAll()
+			}
+			// refresh due, token endpoint unreachable (connection reset): the session is re-validated, never re-stamped
+			s := e.sessionFor(u, 55*time.Minute)
+			s.RefreshToken = fmt.Sprintf("rt-tf-%d", time.Now().UnixNano())
+			e.registerRT(s.RefreshToken, u)
+			ck2 := e.issueSessionCookie(s)
+			var ttl0 time.Duration
+			if redis {
+				for _, k := range e.mr.Keys() {
+					if !strings.HasSuffix(k, ".lock") {
+						ttl0 = e.mr.TTL(k)
+					}
+				}
+			}
+			e.idp.mu.Lock()
+			e.idp.fault = func(endpoint string, n int, w http.ResponseWriter, r *http.Request) bool {
+				if endpoint != "/token" {
+					return false
+				}
+				if hjk, ok := w.(http.Hijacker); ok {
+					conn, _, _ := hjk.Hijack()
+					if tc, ok := conn.(*net.TCPConn); ok {
+						tc.SetLinger(0)
+					}
+					conn.Close()
+				}
+				return true
+			}
+			e.idp.mu.Unlock()
+			r := e.do(reqSpec{Target: "/app/x", Cookie: ck2})
+			e.idp.mu.Lock()
+			e.idp.fault = nil
+			e.idp.mu.Unlock()
+			c.casen(fmt.Sprintf("c09e|transport|%v", redis), fmt.Sprint(r.Status))
+			c.count("c09:refresh-transport-failure")
+			in := map[string]interface{}{"redis": redis, "session_age": "55m", "cookie_expire": "1h", "cookie_refresh": "50m", "status": r.Status}
+			if hasSessionSet(r, e.opts.Cookie.Name) {
+				c.violation("C09", "a session whose refresh did not happen (token endpoint unreachable) was re-issued with a fresh creation time: its lifetime no longer ends at cookie-expire", in)
+			}
+			if redis {
+				for _, k := range e.mr.Keys() {
+					if ttl := e.mr.TTL(k); !strings.HasSuffix(k, ".lock") && ttl > ttl0+2*time.Second {
+						in["ttl_before"], in["ttl_after"] = ttl0.String(), ttl.String()
+						c.violation("C09", "the server-side entry of a session whose refresh did not happen got a longer lifetime", in)
+					}
+				}
+			}
+			e.close()
+		}
+		c.close([]string{"c09:probe-before-any-callback", "c09:probe-after-callback-1", "c09:max-age", "c09:not-refreshable", "c09:max-age-split", "c09:expired-during-lock-wait",
+			"c09:issue-stamp", "c09:presented-again-after-expiry", "c09:refresh-transport-failure"})
 	})
 
 	registerSuite("storeleak", func(c *suiteCtx) {
